@@ -1,0 +1,40 @@
+//go:build verif
+
+// Contracts for the follower's revision sync, checked by /verif/kbv (build tag "verif").
+// This file contains comments only; it adds no declarations to the package.
+
+package revision
+
+// ---- C18: a follower serves a read only after it has adopted a revision the leader sent ----
+// Ghost view of one exchange with the leader: http_failed / http_status describe the answer to
+// the GET, read_failed the reading of its body, parse_failed the decoding of the status document.
+//@ ghost http_failed Bool
+//@ ghost http_status Int
+//@ ghost read_failed Bool
+//@ ghost parse_failed Bool
+
+//@ func @net/http.(*Client).Get(url) (resp, err)
+//@   assumed
+//@   modifies ghost.http_failed ghost.http_status
+//@   ensures [answer] http_failed == (err != nil) && (err == nil ==> resp != nil && resp.Body != nil && http_status == resp.StatusCode)
+//@ func @io.ReadAll(r) (data, err)
+//@   assumed
+//@   modifies ghost.read_failed
+//@   ensures [read] read_failed == (err != nil)
+//@ func @io/ioutil.ReadAll(r) (data, err)
+//@   assumed
+//@   modifies ghost.read_failed
+//@   ensures [read] read_failed == (err != nil)
+//@ func @encoding/json.Unmarshal(data, v) (err)
+//@   ghost_only
+//@   modifies ghost.parse_failed
+//@   ensures [parsed] parse_failed == (err != nil)
+
+// fail closed: a revision is reported only from a 200 answer whose body was read completely and
+// decoded as the status document
+//@ func (*revisionSyncer).getRevisionFromLeader() (rev, err)
+//@   props C18
+//@   nosafety
+//@   requires r != nil && r.leaderElection != nil && r.metricCli != nil && r.httpClient != nil
+//@   modifies *
+//@   ensures [a-revision-only-from-a-complete-status-document] err == nil ==> !http_failed && http_status == 200 && !read_failed && !parse_failed
